@@ -142,7 +142,8 @@ isectI = z3.Function('isectI', sort_of(_LI), sort_of(_LI), I)
 nsetV = z3.Function('nsetV', sort_of(_LV), I)                    # |set(a)|
 nsetI = z3.Function('nsetI', sort_of(_LI), I)
 lev = z3.Function('lev', ValSort, ValSort, I)                    # Levenshtein distance
-memV = z3.Function('memV', sort_of(_LV), ValSort, B)             # x in a
+from .values import mem_fn as _mem_fn, _mem_fns as _mf  # noqa
+memV = _mem_fn(_LV)                                              # x in a (same predicate the executor uses for `in`)
 memI = z3.Function('memI', sort_of(_LI), I, B)
 
 
@@ -203,12 +204,17 @@ def out_header(lkey, rkey, louts, routs, lp, rp):
 
 
 # ------------------------------------------------------------------ counting matches (definitions)
-witV = z3.Function('witV', sort_of(_LV), ValSort, I)            # a position of x in a, when x in a
+witV = _mf['L_V_'][1]                                           # a position of x in a, when x in a
 cntV = z3.Function('cntV', sort_of(_LV), sort_of(_LV), I, I)    # #{ j < p : b[j] in a }
 
 
 def mem_axioms_V():
-    """definition of memV / witV"""
+    """definition of memV / witV (the generic membership axioms)"""
+    from .values import mem_axioms
+    return mem_axioms()
+
+
+def _old_mem_axioms_V():
     a = z3.Const('a!mem', sort_of(_LV))
     x = z3.Const('x!mem', ValSort)
     j = z3.Int('j!mem')
